@@ -82,7 +82,7 @@ func binaryN(p *parser, bp oper.BP, lhs ast.Expr, t *token.Token) ast.Expr {
 	name := ast.Var(t.Lexeme, t.Pos)
 	rhs := p.expr(bp) // 这里是否-1无所谓, 之后会检查
 	rg := pos.Range(lhs, rhs)
-	return ast.Binary(name, oper.INFIX_N, lhs, rhs, rg)
+	return p.infixNCheck(ast.Binary(name, oper.INFIX_N, lhs, rhs, rg))
 }
 
 func unaryPrefix(p *parser, bp oper.BP, t *token.Token) ast.Expr {
